@@ -49,6 +49,7 @@ def _case(draw):
         "n_iterations": draw(st.integers(0, 3)),
         "cover_flag": draw(st.booleans()),
         "mixed_layout": draw(st.booleans()),
+        "pairwise_screen": draw(retro.pairwise_screen()) if draw(st.booleans()) else None,
     }
 
 
@@ -115,7 +116,7 @@ def check_case(case):
             require(len(rows) <= mx, "segregating.max_size", lambda: "unobserved plate %r has %d experiments, limit %d" % (p, len(rows), mx))
 
     # ---- Pairwise
-    screen = S.build_screen(sc_any)
+    screen = S.build_screen(case.get("pairwise_screen") or sc_any)
     out = _run("Pairwise", lambda: retro.apply_operator(case["pairwise"], screen, np.random.default_rng(seed)), labels)
     if out is not None:
         labels.append("ran:Pairwise")
